@@ -91,6 +91,91 @@ fn inv_ntt_levels(ctx: &Ctx, rep: &mut Report) {
 }
 
 // ---------------------------------------------------------------------------------------------
+// 1c. maximal forward-NTT growth (gen::maxgrowth): the extreme input of to_mont and of the
+// matrix-vector pipeline; through the hooks here, through public verify in C02
+
+#[derive(Clone, Debug, Hash, Serialize, Deserialize)]
+pub struct GrowthCase {
+    pub set: u8,
+    pub negative: bool,
+    /// which polynomials of the vector carry the construction (bit mask), the others are zero
+    pub slots: u8,
+    pub rho: Seed32,
+}
+
+/// gen::maxgrowth aims at the residue (q-1)/2 exactly; which representative the crate's Montgomery
+/// multiplication returns right at that boundary depends on low-order terms, so the last step of the
+/// search is guided by the implementation: among the in-norm candidates whose product with the
+/// layer's zeta lies within 2^17 of +-q/2, keep the one for which `mont_reduce(zeta_mont * v)` is
+/// extreme. (Search with the code under test as the objective, like coverage-guided fuzzing.)
+pub fn growth_vector_guided(p: &rf::Params, negative: bool) -> Poly {
+    let b = p.gamma1 - p.beta - 1;
+    let s: i64 = if negative { -1 } else { 1 };
+    let zt = rf::zetas();
+    let ztm = hk::zeta_table_mont();
+    let mut z = rf::ZERO;
+    z[0] = s * b;
+    let (mut len, mut m) = (128usize, 1usize);
+    while len >= 1 {
+        let zinv = rf::pow_mod(zt[m], (Q - 2) as u64);
+        let mut best: Option<(i64, i64)> = None;
+        for d in 0..(1i64 << 17) {
+            let r = s * ((Q - 1) / 2 - d);
+            let v = rf::mod_pm(r.rem_euclid(Q) * zinv % Q, Q);
+            if v.abs() <= b {
+                let t = i64::from(hk::mont_reduce(i64::from(ztm[m]) * v)) * s;
+                if best.map_or(true, |(bt, _)| t > bt) {
+                    best = Some((t, v));
+                }
+            }
+        }
+        z[len] = best.map_or(0, |(_, v)| v);
+        len /= 2;
+        m *= 2;
+    }
+    z
+}
+
+pub fn check_growth(c: &GrowthCase, st: &mut Stats) -> CheckResult {
+    let libr = libs()[c.set as usize % 3];
+    let p = libr.p();
+    let zg = growth_vector_guided(&p, c.negative);
+    let v: Vec<Poly> = (0..p.l).map(|j| if (c.slots >> j) & 1 == 1 || c.slots == 0 { zg } else { rf::ZERO }).collect();
+    st.eval();
+    st.nontrivial(c);
+    let h = g("ntt", || libr.hk_ntt_l(&vec_i32(&v)))?;
+    let peak = h.iter().flat_map(|x| x.iter()).map(|&x| i64::from(x).abs()).max().unwrap_or(0);
+    st.maximum(&format!("max_abs_forward_ntt_coefficient_set{}", p.id), peak);
+    for j in 0..p.l {
+        let r = rf::ntt(&v[j]);
+        if let Some(k) = congruent(&h[j], &r) {
+            fail!(format!("growth_ntt_differs:set{}", p.id), "set {}: ntt of the maximal-growth vector, polynomial {j} position {k}: {} is not congruent to {}", p.id, h[j][k], r[k]);
+        }
+        let hm = g("to_mont", || hk::to_mont::<1>(&[h[j]]))?[0];
+        for k in 0..256 {
+            let want = (i128::from(h[j][k]) << 32).rem_euclid(i128::from(Q)) as i64;
+            if i64::from(hm[k]).rem_euclid(Q) != want || i64::from(hm[k]).abs() >= 2 * Q {
+                fail!(format!("growth_to_mont_differs:set{}", p.id), "set {}: to_mont({}) = {} is not congruent to x*2^32 mod q (or not within (-2q, 2q)); forward-NTT peak {peak}", p.id, h[j][k], hm[k]);
+            }
+        }
+    }
+    let a = rf::expand_a(&p, &c.rho.bytes(), &mut rf::SampleStats::default());
+    let a32: Vec<Vec<P32>> = a.iter().map(|r| vec_i32(r)).collect();
+    let av = g("mat_vec_mul", || libr.hk_mat_vec_mul(&a32, &h))?;
+    let out = g("inv_ntt", || libr.hk_inv_ntt_k(&av))?;
+    let vh: Vec<Poly> = v.iter().map(rf::ntt).collect();
+    let expect: Vec<Poly> = rf::matrix_vector_ntt(&a, &vh).iter().map(rf::ntt_inv).collect();
+    for i in 0..p.k {
+        if to_i64(&out[i]) != expect[i] {
+            let k = (0..256).find(|&j| i64::from(out[i][j]) != expect[i][j]).unwrap_or(0);
+            fail!(format!("growth_matvec_differs:set{}", p.id), "set {}: A*z for the maximal-growth vector, row {i} coefficient {k}: {} vs the product mod q {} (forward-NTT peak {peak})", p.id, out[i][k], expect[i][k]);
+        }
+    }
+    st.sample(&format!("set{}", p.id), || json!({"set": p.id, "negative": c.negative, "slots": c.slots, "forward_ntt_peak": peak, "nonzero_coefficients": zg.iter().enumerate().filter(|(_, &x)| x != 0).map(|(i, &x)| (i, x)).collect::<Vec<_>>()}));
+    Ok(())
+}
+
+// ---------------------------------------------------------------------------------------------
 // 2. challenge products composed as the crate composes them
 
 #[derive(Clone, Debug, Hash, Serialize, Deserialize)]
@@ -307,6 +392,17 @@ pub fn run(ctx: &Ctx, rep: &mut Report) {
     rep.assume("'every vector in range' is sampled plus structured; for ML-DSA-44 the aligned-residue construction does not reach 2^31, so for that set the claim rests on the bound 256*(q-1) < 2^31 established by the reduction at the inverse-NTT copy-in");
     basis(rep);
     inv_ntt_levels(ctx, rep);
+    {
+        let mut gc = Vec::new();
+        for set in 0..3u8 {
+            for negative in [false, true] {
+                for slots in [0u8, 1, 2, 0b0101, 0b1010, 0x40, 0x7F] {
+                    gc.push(GrowthCase { set, negative, slots, rho: Seed32::Uniform(u64::from(slots) ^ ctx.seed) });
+                }
+            }
+        }
+        run_list(rep, "ntt_max_growth", &gc, check_growth);
+    }
     run_generated(ctx, rep, "challenge_products", ctx.n(300_000, 5_000_000), prod_strategy, check_prod);
     run_generated(
         ctx,
@@ -345,6 +441,7 @@ pub fn replay(_ctx: &Ctx, sub: &str, case: &Value) -> Option<CheckResult> {
         "challenge_products" => Some(check_prod(&from_case::<ProdCase>(case), &mut Stats::default())),
         "matrix_vector" => Some(check_mat(&from_case::<MatCase>(case), &mut Stats::default())),
         "key_pipelines" => Some(check_key(&from_case::<KeyCase>(case), &mut Stats::default())),
+        "ntt_max_growth" => Some(check_growth(&from_case::<GrowthCase>(case), &mut Stats::default())),
         "aligned_response_vectors" => Some(check_aligned_hooks(&from_case::<AlignedCase>(case), &mut Stats::default())),
         _ => None,
     }
